@@ -128,6 +128,12 @@ func (c *ShipConnection) ApprovePendingHandshake() {
 	c.stopHandshakeTimer()
 	c.setAndHandleState(model.SmeHelloStateReadyInit)
 
+	// sending the ready message may have failed, in which case the handshake
+	// was aborted or ended with an error and must not be continued
+	if c.getState() != model.SmeHelloStateReadyListen {
+		return
+	}
+
 	// TODO: check if we need to do some validations before moving on to the next state
 	c.setAndHandleState(model.SmeHelloStateOk)
 }
